@@ -397,6 +397,14 @@ func (v *Verifier) verifyFunc(name string) *FuncResult {
 			}
 		}
 	}
+	if name == "init" {
+		// the package initialiser is verified for its first (and only effective) run
+		st.assume(not(sel(st.H("G.init$guard", SBool), "0")))
+		if x.entryWhole == nil {
+			x.entryWhole = map[string]bool{}
+		}
+		x.entryWhole["G.init$guard"] = true
+	}
 	st.entry = st.snapshot()
 	// ghost prologue: `after entry sets g := e` clauses run once, in order, before the body
 	// (old() in them and in the postconditions still denotes the state at entry)
